@@ -57,7 +57,7 @@ def case_strategy(draw):
         mode = "centers"
     return {
         "n": n, "window": draw(window()), "seed": draw(st.integers(0, 2**32 - 1)), "chunksize": draw(chunksize_for(n)), "chunksize_b": draw(chunksize_for(n)),
-        "rows": [list(r) for r in rows], "attrs": attrs, "mode": mode, "patch_num": draw(st.integers(1, 3)), "probe": draw(st.integers(min(n, 30), n)),
+        "rows": [list(r) for r in rows], "attrs": attrs, "mode": mode, "patch_num": draw(st.integers(1, 3)), "probe": draw(st.integers(min(n, 30), n)), "probe_is_chunk": draw(st.booleans()),
         "history": draw(st.lists(st.sampled_from(["call5", "call_n", "catalog", "reseed_other"]), max_size=3)),
         "workers": draw(st.sampled_from([1, 1, 3])), "tape": draw(st.lists(st.integers(0, 5), max_size=8)),
     }
@@ -72,15 +72,18 @@ def make_generator(case):
     return BoxRandoms(*case["window"], weights=w, redshifts=z, seed=case["seed"])
 
 
-def create(case, g, path, chunksize):
+def create(case, g, path, chunksize, mode=None):
     from yaw import AngularCoordinates, Catalog
 
     win = case["window"]
     kw = dict(chunksize=chunksize, max_workers=case["workers"])
-    if case["mode"] == "centers":
+    if (mode or case["mode"]) == "centers":
         kw["patch_centers"] = AngularCoordinates(np.deg2rad([[0.5 * (win[0] + win[1]), 0.5 * (win[2] + win[3])]]))
     else:
-        kw.update(patch_num=case["patch_num"], probe_size=max(case["probe"], 10 * case["patch_num"]))
+        probe = max(case["probe"], 10 * case["patch_num"])
+        if case.get("probe_is_chunk") and 10 * case["patch_num"] <= chunksize <= case["n"]:
+            probe = chunksize  # the sample for the centres has exactly the size of one chunk
+        kw.update(patch_num=case["patch_num"], probe_size=probe)
     if case["workers"] > 1:
         with schedpool.Patched(case["tape"]):
             return Catalog.from_random(path, g, case["n"], **kw)
@@ -114,6 +117,9 @@ def run_case(case):
             cat = create(case, g, tmp / "a", c)
             fresh = create(case, make_generator(case), tmp / "b", c)
             other = create(case, make_generator(case), tmp / "c", case["chunksize_b"])
+            # the pass that generates centres is an earlier use of the generator like any other: with
+            # given centres the same seed and chunk size yield the same points
+            plain = create(case, make_generator(case), tmp / "d", c, mode="centers") if case["mode"] == "num" else None
         except Exception as e:  # noqa
             if case["mode"] == "num" and ("contains no data" in str(e) or "writer process failed" in str(e) or "infs or NaNs" in str(e)):
                 return Result.discard("kmeans-degenerate")
@@ -143,6 +149,8 @@ def run_case(case):
             ck.expect(rec.shape[1] == 2 + (case["attrs"] in ("w", "z")) + 2 * (case["attrs"] == "both"), "attributes:columns", f"{rec.shape}")
         # reproducibility
         ck.expect(sources.multiset(rec) == sources.multiset(all_records(fresh)), "seed:used-generator-differs-from-fresh", f"history {case['history']}")
+        if plain is not None:
+            ck.expect(sources.multiset(rec) == sources.multiset(all_records(plain)), "seed:points-depend-on-how-centres-are-obtained", f"patch_num={case['patch_num']} vs given centre, chunksize {c}")
     return ck.results()
 
 
